@@ -287,6 +287,21 @@ fn hostile_shapes(quick: bool) -> Vec<(String, String, Option<String>)> {
         many.push('\n');
     }
     v.push(("many-prints-150000".into(), "let i = 0;\nwhile i < 150000 do begin print(\"~\\n\", i); i <- i + 1 end;\n".into(), Some(many)));
+    // a failure right after output that exactly fills, or just misses, the usual buffer sizes, with the
+    // last line still open: stdout holds every byte printed before the failure
+    for n in [0usize, 1, 1023, 1024, 1025, 4095, 4096, 4097, 8191, 8192, 8193, 65535, 65536, 65537].iter() {
+        let body = "a".repeat(*n);
+        v.push((format!("fault-after-{}-bytes-open-line", n), format!("print(\"{}\");\n1 / 0;\nprint(\"not reached\\n\");\n", body), Some(body.clone())));
+        if *n >= 1023 {
+            let mut with_nl = body.clone();
+            with_nl.replace_range(511..512, "\n");
+            v.push((
+                format!("fault-after-{}-bytes-line-break-inside", n),
+                format!("print(\"{}\");\nprint(\"\");\nnosuch();\n", with_nl.replace('\n', "\\n")),
+                Some(with_nl),
+            ));
+        }
+    }
     // beyond the capacity of the bytecode format (u16 constants and locals, u8 arities): the program
     // must either run correctly or be refused as a whole before anything runs - never wrap around
     let n = 70_000usize;
@@ -397,7 +412,16 @@ pub fn c10(ctx: &Ctx, rep: &mut Report) {
         rep.bump("c10-hostile-shape", name.split(|c: char| c.is_ascii_digit()).next().unwrap_or(&name).trim_end_matches('-'));
         if crash_freedom(rep, &name, "fml run", &run, &replay) {
             rep.nontrivial(hash_str(&src));
-            if let (Some(e), true) = (&expect, name.starts_with("capacity-")) {
+            if let (Some(e), true) = (&expect, name.starts_with("fault-after-")) {
+                rep.bump("c10-fault-after-output", "programs");
+                if run.success() || run.out_str() != *e {
+                    rep.violation(
+                        "C10:hostile-shape:fault-after-output",
+                        format!("{}: must fail with exactly the {} bytes printed before the failure on stdout; observed exit {:?}, {} bytes{}", name, e.len(), run.code, run.stdout.len(), if run.stdout.len() < 80 { format!(" {:?}", run.out_str()) } else { String::new() }),
+                        replay.clone(),
+                    );
+                }
+            } else if let (Some(e), true) = (&expect, name.starts_with("capacity-")) {
                 rep.bump("c10-capacity-shapes", if run.success() { "runs" } else { "refused" });
                 if !((run.success() && run.out_str() == *e) || (!run.success() && run.stdout.is_empty())) {
                     rep.violation(
@@ -442,6 +466,43 @@ pub fn c10(ctx: &Ctx, rep: &mut Report) {
             }
         }
     }
+    // (1b) an undefined operation inside every kind of surrounding construct: six faulting expressions x 16
+    // expression wrappers x 34 statement contexts (argument of print, field initializer, parent, compound
+    // array initializer, index, receiver, condition, loop body, method body ...), with tracers around
+    let fault_constructs: Vec<usize> = (0..gen::MATRIX_CONSTRUCTS.len()).filter(|ci| gen::MATRIX_CONSTRUCTS[*ci].0.starts_with("fault-")).collect();
+    for ci in fault_constructs.iter() {
+        for wi in 0..gen::MATRIX_WRAPPERS.len() {
+            for xi in 0..gen::MATRIX_CONTEXTS.len() {
+                k += 1;
+                if !ctx.mine(k) || (ctx.quick() && (k.wrapping_mul(0x9E37_79B9_7F4A_7C15).wrapping_add(ctx.seed) >> 24) % 4 != 0) {
+                    continue;
+                }
+                let (name, src) = gen::matrix3_program(*ci, wi, xi);
+                let ast = match real::parse(&src) {
+                    Ok(a) => a,
+                    Err(e) => {
+                        rep.inconsistency(format!("fault matrix program {} does not parse: {}", name, e));
+                        continue;
+                    }
+                };
+                let out = refsem::run(&ast, lim);
+                rep.evaluations += 1;
+                if !out.judged() || out.order_hazard.is_some() {
+                    rep.skip(res_name(&out.res));
+                    continue;
+                }
+                let f = dir.join(format!("fm{}.fml", k % 16));
+                if std::fs::write(&f, &src).is_err() {
+                    continue;
+                }
+                let replay = json!({"check":"C10","source_b64": super::super::b64(src.as_bytes()), "fault": name});
+                let run = if k % 3 == 0 { cli::fml_run_stdin(&src) } else { cli::fml_run_file(&f) };
+                expect_cli(rep, &format!("fault-matrix:{}", name), "fml run", &run, &out, &replay, gen::MATRIX_CONSTRUCTS[*ci].0);
+                rep.bump("c10-fault-in-construct", if out.failed() { "fault reached" } else { "fault not reached (dead position)" });
+                rep.nontrivial(hash_str(&src));
+            }
+        }
+    }
     // (3b) hand-assembled bytecode through `fml execute`: instructions that are undefined only when they
     // run (undefined escape, placeholder mismatch, unknown function, duplicate members, unknown
     // global) sit in dead code or after earlier output; the run stops exactly where one executes
@@ -481,6 +542,24 @@ pub fn c10(ctx: &Ctx, rep: &mut Report) {
         "x <-", "<- 1", "let 1 = 2", "let x 1", "function (a) -> a", "function f(1) -> 1", "function f(a) a", "array(1)", "array(1, 2, 3)", "print(1)", "print()",
         "a[1", "a]", "a b", "1 2", "while a b", "object extends begin end", "object begin 1 end", "a = 1", "let x = = 1",
     ];
+    // spellings other languages use (none of them FML): literal forms, operators, statements, separators left out
+    let more_invalid: [&str; 43] = [
+        "0x10", "1_000", "1e3", "1.5", "'a'", "let s = \"abc\"", "print(\"~\", \"str\")", "x++", "x += 1", "!x", "let x = 1; -x", "not x", "a[1:2]", "[1, 2, 3]", "{ }", "f(a = 1)", "a ? b : c",
+        "let x: int = 1", "return 1", "a and b", "a or b", "a mod b", "a === b", "a <> b", "a ^ b", "a ~ b", "a << 1", "a >> 1", "-- comment", "1;;2", "begin ; end", "print(\"a\" \"b\")",
+        "print(\"~\" 1)", "let x = 1 let y = 2", "function f() -> 1 function g() -> 2", "object begin let a = 1 let b = 2 end", "a.b.(c)", "a.1", "this.", "let begin = 1", "f()()", "a[1][",
+        "print(\"~\\n\", 1",
+    ];
+    let mut invalid: Vec<String> = invalid.iter().map(|s| s.to_string()).chain(more_invalid.iter().map(|s| s.to_string())).collect();
+    // a backslash in a string literal may only be followed by ~ n t r \ or the double quote
+    for c in 0x20u8..0x7f {
+        let ch = c as char;
+        if !['~', 'n', 't', 'r', '\\', '"'].contains(&ch) {
+            invalid.push(format!("print(\"a\\{}b\")", ch));
+        }
+    }
+    for ch in ['\u{e9}', '\u{2028}', '\n', '\t', '\u{0}'].iter() {
+        invalid.push(format!("print(\"a\\{}b\")", ch));
+    }
     for (n, bad) in invalid.iter().enumerate() {
         k += 1;
         if !ctx.mine(k) {
